@@ -341,3 +341,32 @@ def run(ctx):
                 ctx.finding(rs, "%s.commands|dropped|%s" % (PARSER, c), "command '%s' is no longer accepted" % c,
                             method_loc(repo, cls, init))
         ctx.floor(rs, 90)
+
+    if ctx.want("R8"):
+        rs = ctx.rule("R8", "parser reset completeness: state changed by commands is re-initialised by _reset")
+        ci = repo.cls(PARSER)
+        reset = ci.own_func("_reset")
+        if reset is None:
+            ctx.error("R8", "SmtLibParser._reset vanished")
+        else:
+            from ..common import stores_in, is_self_attr
+            in_reset = set(t.attr for t, _ in stores_in(reset) if is_self_attr(t))
+            changed = {}
+            for nm in ci.order:
+                f = ci.own_func(nm)
+                if f is None or nm in ("__init__", "_reset"):
+                    continue
+                for t, st in stores_in(f):
+                    if is_self_attr(t):
+                        changed.setdefault(t.attr, (nm, st))
+            for attr, (nm, st) in sorted(changed.items()):
+                if attr in in_reset:
+                    rs.ok({"attribute": attr, "changed_by": nm, "reset": True})
+                else:
+                    ctx.finding(rs, "%s._reset|state-not-reset|%s" % (PARSER, attr),
+                                "%s changes self.%s (%s) but _reset does not re-initialise it: a parser object re-used for a "
+                                "second script keeps the value set by the first one" % (nm, attr, short(st)),
+                                method_loc(repo, PARSER, reset))
+            cls, gs = repo.method(PARSER, "get_script")
+        ctx.floor(rs, 1)
+
